@@ -145,7 +145,7 @@ fn gen_rules(r: &mut Rng) -> Vec<String> {
         let sel = gen_set_selector(r);
         let line = match r.below(12) {
             0 => format!("~example.com##{}", sel),
-            1 => format!("~example.com,~foo.*##{}", sel),
+            1 => format!("{}##{}", r.pick(&["~example.com,~foo.*", "~foo.*,~example.com", "~foo.*", "~a.com,~b.com,~c.*", "~x.*,~y.*"]), sel),
             2 => format!("example.com##{}", sel),
             3 => format!("example.com,~sub.example.com##{}", sel),
             4 => format!("example.com#@#{}", sel),
@@ -219,6 +219,29 @@ fn generic_selectors(lines: &[String]) -> Vec<String> {
         }
     }
     g
+}
+
+/// The same set read off the rule TEXT: a hide rule (`##`, plain selector) is generic when its
+/// location list is empty or consists only of negations (`~host`, `~entity.*`).  Returns the lines
+/// for which the crate's own partition (has_hostname_constraint / hidden_generic_rule) disagrees.
+fn generic_partition_mismatches(lines: &[String]) -> Vec<String> {
+    let mut out = vec![];
+    for l in lines {
+        let Some(i) = l.find("##") else { continue };
+        if l[..i].contains('#') {
+            continue;
+        }
+        let locs: Vec<&str> = l[..i].split(',').filter(|x| !x.is_empty()).collect();
+        let text_generic = locs.iter().all(|x| x.starts_with('~'));
+        if let Ok(ParsedFilter::Cosmetic(f)) = parse_filter(l, false, Default::default()) {
+            let Some(sel) = f.plain_css_selector() else { continue };
+            let crate_generic = if f.has_hostname_constraint() { f.hidden_generic_rule().and_then(|h| h.plain_css_selector().map(|s| s.to_string())) } else { Some(sel.to_string()) };
+            if text_generic != crate_generic.is_some() {
+                out.push(format!("the rule {:?} is {} by its location list, but the crate {}", l, if text_generic { "generic (no positive location)" } else { "scoped to hosts" }, if crate_generic.is_some() { "files its selector with the generic rules" } else { "gives it no generic rule" }));
+            }
+        }
+    }
+    out
 }
 
 fn cmap(m: &[(String, Vec<String>)]) -> String {
@@ -557,7 +580,7 @@ fn main() {
             let alt = Alt::from_json(&rp["alt"], rules.len());
             let run = run_set(&rules, &strs(&rp["classes"]), &strs(&rp["ids"]), &strs(&rp["exceptions"]), &alt);
             println!("generic selectors={:?}\nlookup={:?}", run.g, run.got);
-            for f in &run.failures {
+            for f in run.failures.iter().chain(generic_partition_mismatches(&rules).iter()) {
                 println!("FAIL: {}", f);
                 bad = true;
             }
@@ -606,6 +629,10 @@ fn main() {
     for case_no in 0..(600 * a.scale) {
         let rules = gen_rules(&mut r);
         let g = generic_selectors(&rules);
+        for m in generic_partition_mismatches(&rules) {
+            sm.oracle_evaluations += 1;
+            sm.failure(None, &m, json!({"kind": "set", "rules": rules, "classes": [], "ids": [], "exceptions": []}));
+        }
         let mut names: Vec<String> = vec![];
         for s in &g {
             if let Some(k) = ref_key(s) {
